@@ -239,7 +239,12 @@ def observe(program, step, into_array=False):
                 # the way an upload samples: into memory the caller provides (pre-filled with a sentinel)
                 buf = np.full(len(times), 12345.678)
                 ret = wf.get_sampled(c, times, output_array=buf)
-                same = lambda a, b: len(a) == len(b) and all(x == y or (x != x and y != y) for x, y in zip(a, b))
+                # (a sample that is NaN without an array and still the sentinel in the provided one is ONE defect seen twice
+                #  - the sample is never written: it stays in the observation as NaN, which the specification rejects and the
+                #  model is compared on; since round 6 the driver compares cases of known findings with the model too, so it
+                #  must not be turned into a crash here.  Any other difference is a failed case.)
+                same = lambda a, b: len(a) == len(b) and all(x == y or (x != x and y != y) or (y != y and x == 12345.678)
+                                                             for x, y in zip(a, b))
                 if not same(list(map(float, buf)), list(map(float, vals))) or \
                         not same(list(map(float, ret)), list(map(float, vals))):
                     return {'crash': 'get_sampled(%r) into a provided output_array differs from get_sampled without '
